@@ -74,7 +74,7 @@ type Ackqueue struct {
 	head  int64
 	tail  int64
 
-	ping AckMsg
+	ping []AckMsg
 	ring []AckMsg
 	emap map[uint16]int64
 
@@ -123,13 +123,16 @@ func (aq *Ackqueue) Wait(msg message.Message, onComplete interface{}) error {
 		aq.insert(msg.PacketID(), msg, onComplete)
 
 	case *message.PingreqMessage:
-		aq.ping = AckMsg{
+		// PINGREQ has no packet ID: outstanding pings are kept in send order and
+		// each PINGRESP acknowledges the oldest one.
+		am := AckMsg{
 			Mtype:      message.PINGREQ,
 			State:      message.RESERVED,
 			Msgbuf:     make([]byte, 2),
 			OnComplete: onComplete,
 		}
-		msg.Encode(aq.ping.Msgbuf)
+		msg.Encode(am.Msgbuf)
+		aq.ping = append(aq.ping, am)
 
 	default:
 		return errWaitMessage
@@ -162,10 +165,13 @@ func (aq *Ackqueue) Ack(msg message.Message) error {
 		}
 
 	case message.PINGRESP:
-		if aq.ping.Mtype == message.PINGREQ {
-			aq.ping.State = message.PINGRESP
-			aq.ping.Ackbuf = make([]byte, 2)
-			msg.Encode(aq.ping.Ackbuf)
+		for i := range aq.ping {
+			if aq.ping[i].State != message.PINGRESP {
+				aq.ping[i].State = message.PINGRESP
+				aq.ping[i].Ackbuf = make([]byte, 2)
+				msg.Encode(aq.ping[i].Ackbuf)
+				break
+			}
 		}
 
 	default:
@@ -182,9 +188,9 @@ func (aq *Ackqueue) Acked() []AckMsg {
 
 	aq.ackdone = aq.ackdone[0:0]
 
-	if aq.ping.State == message.PINGRESP {
-		aq.ackdone = append(aq.ackdone, aq.ping)
-		aq.ping = AckMsg{}
+	for len(aq.ping) > 0 && aq.ping[0].State == message.PINGRESP {
+		aq.ackdone = append(aq.ackdone, aq.ping[0])
+		aq.ping = aq.ping[1:]
 	}
 
 FORNOTEMPTY:
